@@ -240,10 +240,17 @@ func strLitFacts(name, lit string) []string {
 			}
 		}
 		fs = append(fs, fmt.Sprintf("(= (mmin %s) %s)", name, mm))
+		ne := 0
+		for _, l := range lines {
+			if l == 0 {
+				ne++
+			}
+		}
+		fs = append(fs, fmt.Sprintf("(= (nel %s) %d)", name, ne))
 	}
 	return fs
 }
 
 var empFacts = []string{
-	"(= (blen emp) 0)", "(= (nl emp) 0)", "(= (vlen emp) 0)", "(clean emp)", "(wf emp)", "(digits emp)", "(noNL emp)", "(noCTL emp)", "(not (sgr emp))", "(sgrch emp)", "(sgrs emp)", "(not (p1 emp))", "(= (mxl emp) 0)", "(= (fstl emp) 0)", "(= (lstl emp) 0)", "(= (mmin emp) 9223372036854775808)", "(= (nsc emp) 0)",
+	"(= (blen emp) 0)", "(= (nl emp) 0)", "(= (vlen emp) 0)", "(clean emp)", "(wf emp)", "(digits emp)", "(noNL emp)", "(noCTL emp)", "(not (sgr emp))", "(sgrch emp)", "(sgrs emp)", "(not (p1 emp))", "(= (mxl emp) 0)", "(= (fstl emp) 0)", "(= (lstl emp) 0)", "(= (mmin emp) 9223372036854775808)", "(= (nel emp) 1)", "(= (nsc emp) 0)",
 }
